@@ -83,6 +83,10 @@ def install_v1(case, label='e1'):
                                        for e in case['evolutions']])
     else:
         evorig.set_evolutions('vapp', [{'label': label, 'mutations': [sigs.real_mutation(m) for m in case['muts']]}])
+    # evolutions of further apps that were applied BEFORE this release (app label -> mutations, label `e0`): they stay
+    # in the app's SEQUENCE
+    for app, muts in (case.get('applied_first') or {}).items():
+        evorig.set_evolutions(app, [{'label': 'e0', 'mutations': [sigs.real_mutation(m) for m in muts]}])
     # pending evolutions of further apps of the case (app label -> mutations)
     for app, muts in (case.get('extra_evolutions') or {}).items():
         evorig.set_evolutions(app, [{'label': label, 'mutations': [sigs.real_mutation(m) for m in muts]}])
